@@ -1254,7 +1254,12 @@ func FromV3Response(ref *openapi3.ResponseRef, components *openapi3.Components) 
 			}
 		}
 		if ct != nil {
-			result.Schema, _ = FromV3SchemaRef(ct.Schema, components)
+			var file *openapi2.Parameter
+			result.Schema, file = FromV3SchemaRef(ct.Schema, components)
+			if result.Schema == nil && file != nil && file.Ref == "" {
+				// a binary body is a file in OpenAPI 2
+				result.Schema = &openapi2.SchemaRef{Value: &openapi2.Schema{Type: file.Type, Description: file.Description}}
+			}
 		}
 	}
 	if headers := response.Headers; len(headers) > 0 {
